@@ -1,0 +1,15 @@
+//go:build verif
+
+package treebidimap
+
+import "github.com/emirpasic/gods/v2/trees/redblacktree"
+
+// VerifInner returns the forward tree.
+func (m *Map[K, V]) VerifInner() *redblacktree.Tree[K, V] {
+	return &m.forwardMap
+}
+
+// VerifInverse returns the inverse tree.
+func (m *Map[K, V]) VerifInverse() *redblacktree.Tree[V, K] {
+	return &m.inverseMap
+}
